@@ -276,6 +276,87 @@ def mode_cache(env, payload):
     return {'observed': out, 'seed_size': len(seed)}
 
 
+def mode_history(env, payload):
+    """Histories of add() / hash() / compile_vform() on form objects sharing the in-process cache.
+    Oracle for every step: a form built from scratch with the adds accepted so far."""
+    compile = env.compile
+    cache = compile.__dict__['__vform_asm_cache']
+    seed = dict(cache)
+    from pyiga import assemblers
+    shipped = {getattr(assemblers, n): n for n in dir(assemblers) if isinstance(getattr(assemblers, n), type)}
+    ngen = [0]
+    real_generate = compile.generate
+
+    def counting_generate(vf, *a, **kw):
+        ngen[0] += 1
+        return real_generate(vf, *a, **kw)
+    compile.generate = counting_generate
+    compile.compile_cython_module = lambda src, verbose=False: MarkerMod(src)
+    out = []
+    for hist in payload['histories']:
+        cache.clear()
+        cache.update(seed)
+        objs = []
+        for pre in hist['objects']:
+            ns = env.namespace(hist['dim'])
+            exec(pre, ns)
+            objs.append({'ns': ns, 'pre': pre, 'adds': [], 'base': ser_form(env, ns['V'])})
+
+        def fresh(o):
+            ns = env.namespace(hist['dim'])
+            exec(o['pre'], ns)
+            for code in o['adds']:
+                ns['V'].add(eval(code, ns))
+            return ns['V']
+        obs = []
+        for op in hist['ops']:
+            o = objs[op[1]]
+            V = o['ns']['V']
+            r = {}
+            try:
+                if op[0] == 'add':
+                    e = eval(op[2], o['ns'])
+                    r['node'] = ser_node(env, e, [4000])
+                    try:
+                        V.add(e)
+                        o['adds'].append(op[2])
+                        r['res'] = 'ok'
+                    except RuntimeError as ex:
+                        r['res'] = 'raise'
+                        r['msg'] = str(ex)[:80]
+                elif op[0] == 'hash':
+                    r['hash'] = str(V.hash())
+                    r['fresh'] = str(fresh(o).hash())
+                    r['res'] = 'hashed'
+                else:
+                    od = bool(op[2])
+                    try:
+                        r['want'] = csha(real_generate(fresh(o), on_demand=od))
+                    except Exception as ex:  # noqa
+                        r['want'] = 'ERR:' + errclass(ex)
+                    r['adds'] = list(o['adds'])
+                    n0 = ngen[0]
+                    try:
+                        asm = compile.compile_vform(V, on_demand=od)
+                        r['miss'] = ngen[0] > n0
+                        r['res'] = 'class'
+                        if isinstance(asm, MarkerAsm):
+                            r['src'] = csha(asm.src)
+                        elif asm in shipped:
+                            r['shipped'] = shipped[asm]
+                        else:
+                            r['other'] = repr(asm)[:80]
+                    except Exception as ex:  # noqa
+                        r['res'] = 'raise'
+                        r['msg'] = '%s: %s' % (errclass(ex), str(ex)[:80])
+            except Exception as ex:  # noqa
+                r['res'] = 'err:' + errclass(ex)
+                r['msg'] = str(ex)[:120]
+            obs.append(r)
+        out.append({'observed': obs, 'bases': [o['base'] for o in objs]})
+    return {'histories': out}
+
+
 PREDEF = [('mass_vf', {}, 'MassAssembler'), ('stiffness_vf', {}, 'StiffnessAssembler'),
           ('heat_st_vf', {}, 'HeatAssembler_ST'), ('wave_st_vf', {}, 'WaveAssembler_ST'),
           ('divdiv_vf', {}, 'DivDivAssembler'), ('L2functional_vf', {}, 'L2FunctionalAssembler'),
@@ -374,7 +455,7 @@ def main():
     payload = json.load(sys.stdin)
     env = Env()
     mode = payload['mode']
-    res = {'forms': mode_forms, 'codes': mode_codes, 'confirm': mode_confirm, 'cache': mode_cache, 'fresh': mode_fresh, 'build': mode_build}[mode](env, payload)
+    res = {'forms': mode_forms, 'codes': mode_codes, 'confirm': mode_confirm, 'history': mode_history, 'cache': mode_cache, 'fresh': mode_fresh, 'build': mode_build}[mode](env, payload)
     sys.stdout.write('\n' + json.dumps(res) + '\n')
 
 
